@@ -175,4 +175,3 @@ package db
 //@ func (*LocalDB).Commit [C08]
 //@   opt safety=assumed panics=allowed
 //@   ensures result == nil && !l.intx && l.txcache == nil
-//@   ensures l.maindb == old(l.maindb)
